@@ -251,7 +251,9 @@ SPECS = {
                 rule="guarded recursive grammars (recursive() and Recursive::declare/define; nested delimiters, right recursion, recursion under "
                      "repetition, mutually recursive pairs, recursion through map/labelled), inputs nested to sampled depths 0..4 then mutated; "
                      "plus implementation-only runs (beyond the model's fuel; expected verdict known by construction) nested 2*10^5 deep (thorough: 10^6) through "
-                     "recursive(), declare/define and mutually recursive pairs of either, well-formed and with one closer missing, parse and check; "
+                     "recursive(), declare/define and mutually recursive pairs of either, well-formed and with one closer missing, parse and check; plus static probes "
+                     "(staticharness 20-22: a second define() panics and leaves the first definition in place; clone / drop / box of handles; mutual declare-define) "
+                     "on all strings up to length 6 over the bracket alphabet; "
                      "non-trivial = input of >= 2 tokens"),
     "C15": Spec("C15", CORE + ITER + CTX * 5 + ["MapWith"], obs_vv, ekinds=("rich",),
                 nontrivial=lambda g, inp: len(inp) > 0 and has_head(g, set(CTX)),
